@@ -213,12 +213,37 @@ Section Pilots.
   Definition submitted (trace : list period_in) := submitted_from 0 trace [].
   (* submissions made in periods <= t *)
   Definition upto (t : nat) (subs : list (nat * schedule)) := filter (fun e => fst e <=? t) subs.
+  (* ---------------- arbitrary callers ---------------- *)
+  (* any sequence of direct calls on one simulator object: _update_schedules at any iteration (not
+     necessarily increasing) with any queue state, and _increase_width with any target; an exception is
+     caught by the caller, who goes on calling.  Returns the matrix, the accepted submissions (most
+     recent first) and the outcome of every call (most recent first). *)
+  Inductive call :=
+  | CUpd (last : option Z) (it : nat) (s : schedule)
+  | CWiden (target : Z).
+
+  Fixpoint run_calls (ids : list K) (m : pmat) (calls : list call)
+           (acc : list (nat * schedule)) (log : list (option string))
+    : pmat * list (nat * schedule) * list (option string) :=
+    match calls with
+    | [] => (m, acc, log)
+    | CUpd last it s :: rest =>
+        match update_schedules ids last it m s with
+        | OkS m' => run_calls ids m' rest ((it, s) :: acc) (None :: log)
+        | ErrS e m' => run_calls ids m' rest acc (Some e :: log)
+        end
+    | CWiden t :: rest => run_calls ids (increase_width m t) rest acc (None :: log)
+    end.
+
+  Definition zero_mat (ids : list K) (w : nat) : pmat :=
+    {| rows := map (fun _ => repeat zero w) ids; wid := w |}.
 End Pilots.
 
 Arguments pmat : clear implicits.
 Arguments sim : clear implicits.
 Arguments period_in : clear implicits.
 Arguments schedule : clear implicits.
+Arguments call : clear implicits.
 
 (* ---------------- executable instance and correspondence checks (K = Z, A = Q) ---------------- *)
 From Coq Require Import QArith.
@@ -273,3 +298,24 @@ Record c04wcase := {
 Definition check_c04w (c : c04wcase) : bool :=
   let m := increase_width 0%Q {| rows := w_rows c; wid := Z.to_nat (w_wid c) |} (w_target c) in
   ostr_eqb None (iw_exc c) && qmat_eqb (rows m) (iw_rows c) && Z.eqb (Z.of_nat (wid m)) (iw_wid c).
+
+(* stream 4: several direct calls on one (of several interleaved) simulator objects *)
+Inductive qcall :=
+| QUpd (last : option Z) (it : Z) (s : schedule Z Q)
+| QWiden (target : Z).
+Definition to_call (c : qcall) : call Z Q :=
+  match c with QUpd l i s => CUpd l (Z.to_nat i) s | QWiden t => CWiden t end.
+
+Record c04scase := {
+  s_ids : list Z; s_rows : list (list Q); s_wid : Z; s_calls : list qcall;
+  is_log : list (option string);       (* exception class of every call, chronological *)
+  is_rows : list (list Q); is_wid : Z
+}.
+
+Definition check_c04s (c : c04scase) : bool :=
+  match run_calls Z.eqb 0%Q (s_ids c) {| rows := s_rows c; wid := Z.to_nat (s_wid c) |}
+                  (map to_call (s_calls c)) [] [] with
+  | (m, _, log) =>
+      list_eqb ostr_eqb (rev log) (is_log c)
+      && qmat_eqb (rows m) (is_rows c) && Z.eqb (Z.of_nat (wid m)) (is_wid c)
+  end.
